@@ -150,16 +150,18 @@ def _worker(job):
             self.finished = False
             self.free = False
             self.result = None
-            self.nev = 0
+            self.nev = 0        # line events seen
+            self.allowed = 0    # line events the controller has allowed the thread to pass
             self.where = None
             self.started = False
 
         def _local(self, frame, event, arg):
             if event == "line" and not self.free:
                 self.nev += 1
-                self.where = [frame.f_code.co_name, frame.f_lineno]
-                self.ctl.release()
-                self.go.acquire()
+                while self.nev > self.allowed and not self.free:
+                    self.where = [frame.f_code.co_name, frame.f_lineno]
+                    self.ctl.release()
+                    self.go.acquire()
             return self._local
 
         def _global(self, frame, event, arg):
@@ -208,9 +210,8 @@ def _worker(job):
                         wait(ctl)
                         t.join()
                 else:
-                    for _ in range(n):
-                        if t.finished:
-                            break
+                    if n > 0 and not t.finished:
+                        t.allowed += n
                         t.go.release()
                         wait(ctl)
             obs.append(observe(s["threads"]))
@@ -321,7 +322,7 @@ def run(ck):
     # calls ---------------------------------------------------------------------------
     id_builders = [["Get", 225]] if quick else [["Get", 225], ["Get", "Fm-3m"], ["Is", " p 21/c "]]
     hash_builders = [["Find", 225, "same"]] if quick else [["Find", 225, "same"], ["Find", 62, "reversed"]]
-    readers_q = [["Get", "Fm-3m"], ["Get", 225], ["Find", 62, "same"]]
+    readers_q = [["Get", "Fm-3m"], ["Get", 225], ["Get", "Ia3d"], ["Find", 62, "same"]]   # 'Ia3d' is the last alias stored
     readers_t = readers_q + [["Is", "P 1 21/c 1"], ["Get", "no such group"], ["Find", 225, "reversed"]]
     readers = readers_q if quick else readers_t
 
@@ -335,12 +336,7 @@ def run(ck):
         is_hash = b[0].startswith("Find")
         for r in readers:
             same_table = r[0].startswith("Find") == is_hash
-            if quick and is_hash:
-                # the fingerprint build costs ~0.1 s per run: sample its pre-emption points (all near both ends)
-                pts = sorted(set(list(range(0, min(N, 12))) + list(range(max(0, N - 12), N + 1)) + [rng.randrange(N + 1) for _ in range(60)]))
-                if not same_table:
-                    pts = pts[::6]
-            elif not same_table:
+            if not same_table:
                 pts = sorted(set(range(0, N + 1, 17)) | {N})
             else:
                 pts = list(range(N + 1))
@@ -357,6 +353,17 @@ def run(ck):
         q = rng.choice([rng.randrange(Na + 1), rng.randrange(0, 8), Na - rng.randrange(0, 12)])
         schedules.append({"threads": [a, b], "traced": [1, 1], "segs": [[0, max(0, p)], [1, max(0, q)], [0, -1], [1, -1]]})
         tags.append(("pair", a, b, (p, q)))
+    # windows: both threads parked near the end of their build (around the publication step and the
+    # `in` / subscript pair of the lookup), then the first advances k lines, the second finishes
+    for a, b in ([(["Get", 225], ["Get", "Fm-3m"]), (["Find", 225, "same"], ["Find", 62, "same"])]):
+        Na = npts[json.dumps(a)]
+        back = 7 if quick else 12
+        for dp in range(back):
+            for dq in range(back):
+                for k in (1, 2, 3) if quick else (1, 2, 3, 4, 5):
+                    schedules.append({"threads": [a, b], "traced": [1, 1],
+                                      "segs": [[0, Na - dp], [1, Na - dq], [0, k], [1, -1], [0, -1]]})
+                    tags.append(("window", a, b, (Na - dp, Na - dq, k)))
     if not quick:
         # three threads: builder, second builder parked inside its build, reader parked between `in` and subscript
         for _ in range(600):
@@ -433,6 +440,7 @@ def run(ck):
                     {"kind": "correspondence", "schedule": schedules[i], "model_line": lines[li], "model": m,
                      "observed": runs[i]}, no_failing_input=(kind == "seq"))
                 fails[key] = []
+    ck.notes.append("model/implementation outcome comparisons: %d, disagreements: %d" % (len(want), ndis))
     for key, lst in fails.items():
         if not lst:
             continue
@@ -457,8 +465,8 @@ def run(ck):
     ck.coverage["rule"] = (
         "forced schedules on the real functions: a traced thread (first-use GetSpaceGroup / FindSpaceGroup, i.e. the builder) is parked at "
         "every line event inside GetSpaceGroup/FindSpaceGroup/IsSpaceGroupIdentifier/_buildSGLookupTable/_getSGHashLookupTable; at each point an "
-        "untraced reader performs a complete lookup, then the builder resumes (quick: every point of the identifier-table builder x 3 readers, "
-        "sampled points of the fingerprint-table builder, 60 two-switch builder/builder schedules). distinct_nontrivial = distinct (kind, calls, "
+        "untraced reader performs a complete lookup, then the builder resumes (quick: every point of the identifier-table builder x its 2 readers and of "
+        "the fingerprint-table builder x its reader, every 17th point for readers of the other table, 60 two-switch builder/builder schedules). distinct_nontrivial = distinct (kind, calls, "
         "observed table classes, source line of the pre-emption point)")
     ck.coverage["classes_observed"] = {t: sorted(v) for t, v in classes_seen.items()}
     ck.coverage["samples"] = [
